@@ -37,9 +37,10 @@ KNOB_DEFAULTS = {
     "extra_files": False,     # empty / comment-only files in between
     "chunk": 0,               # raw read size; 0 = whatever the io stack asks for
     "path_flavour": "str",    # str | Path | PathLike
-    "fault": None,            # None | "eio" | "vanish"
+    "fault": None,            # None | "eio" | "vanish" | "interrupt"
+    "reparse": False,         # parse() a second time and ask everything again
 }
-SIM_DIMENSIONS = ("mode", "n_files", "end_per_file", "bom", "crlf", "no_final_newline", "extra_files", "chunk", "path_flavour", "fault", "final_end")
+SIM_DIMENSIONS = ("mode", "n_files", "end_per_file", "bom", "crlf", "no_final_newline", "extra_files", "chunk", "path_flavour", "fault", "final_end", "reparse")
 
 
 def draw_knobs(rng: random.Random, faults: bool = False, raw: bool = False) -> dict:
@@ -56,6 +57,7 @@ def draw_knobs(rng: random.Random, faults: bool = False, raw: bool = False) -> d
     k["n_files"] = rng.choice([1, 1, 2, 2, 3, 4])
     k["chunk"] = rng.choice([0, 0, 1, 2, 3, 7, 16, 64])
     k["path_flavour"] = rng.choice(["str", "Path", "PathLike"])
+    k["reparse"] = rng.random() < 0.15
     if raw:
         k["wrap_params"] = k["comma_params"] = k["spacing"] = False
     if faults:
@@ -179,7 +181,7 @@ def make_delivery(doc: dict, dseed: int, knobs: dict) -> dict:
         ls = list(lines)
         if knobs["final_end"]:
             ls.append(end_line())
-        return {"mode": "string", "text": join(ls, True)}
+        return {"mode": "string", "text": join(ls, True), "reparse": bool(knobs.get("reparse"))}
 
     n = max(1, min(knobs["n_files"], 4))
     cuts = sorted(rng.randint(0, len(lines)) for _ in range(n - 1))
@@ -203,13 +205,14 @@ def make_delivery(doc: dict, dseed: int, knobs: dict) -> dict:
     if knobs["fault"] == "eio":
         j = rng.randrange(len(files))
         size = len(files[j]["content"].encode("utf-8"))
-        fault = {"kind": "eio", "file": files[j]["name"], "offset": rng.randint(0, max(0, size - 1))}
+        fault = {"kind": "eio", "file": files[j]["name"], "offset": rng.randint(0, max(0, size - 1)), "once": rng.random() < 0.5}
     elif knobs["fault"] == "vanish":
         fault = {"kind": "vanish", "file": files[rng.randrange(len(files))]["name"]}
     elif knobs["fault"] == "interrupt":
         n_lines = sum(f["content"].count("\n") + 1 for f in files)
         fault = {"kind": "interrupt", "k": rng.randint(1, max(2, 7 * n_lines + 20))}
-    return {"mode": "files", "files": files, "chunk": knobs["chunk"], "path_flavour": knobs["path_flavour"], "fault": fault}
+    return {"mode": "files", "files": files, "chunk": knobs["chunk"], "path_flavour": knobs["path_flavour"], "fault": fault,
+            "reparse": bool(knobs.get("reparse"))}
 
 
 def abstract(knobs: dict) -> tuple:
